@@ -462,25 +462,26 @@ func (cd *cmdDispatcher) dispatchHandler(ctx *cmdContext) (output respValue) {
 	var result respValue
 	simBeforeLock(&cd.dss.mu, "cd.dss.mu")
 	cd.dss.mu.Lock()
-	phook := cd.dss.phook
+	var hook DispatchHook
+	if cd.dss.phook != nil {
+		// SetHook stores the hook under this lock
+		hook = *cd.dss.phook
+	}
 	cd.dss.mu.Unlock()
 	simAfterUnlock(&cd.dss.mu, "cd.dss.mu")
 
-	if phook != nil {
-		hook := *phook
-		if hook != nil {
-			l.Tracef("calling handler hook for command '%s'", cmdToken)
-			hooked, r, err := hook(cmdToken, ctx.args.toNative())
-			if err != nil {
-				l.Warnf("hook error processing command '%s': %s", cmdToken, err)
-				output.data = respErrorString(fmt.Sprintf("ERR %s", err.Error()))
-				return
-			}
+	if hook != nil {
+		l.Tracef("calling handler hook for command '%s'", cmdToken)
+		hooked, r, err := hook(cmdToken, ctx.args.toNative())
+		if err != nil {
+			l.Warnf("hook error processing command '%s': %s", cmdToken, err)
+			output.data = respErrorString(fmt.Sprintf("ERR %s", err.Error()))
+			return
+		}
 
-			if hooked {
-				result = nativeValueToResp(r)
-				handler = nil
-			}
+		if hooked {
+			result = nativeValueToResp(r)
+			handler = nil
 		}
 	}
 
